@@ -22,6 +22,7 @@ type scen struct {
 	cerr             bool
 	counter          bool
 	others           int
+	fresh            bool // no record for the SKI before the operation
 }
 
 func (s scen) coq() string {
@@ -29,8 +30,8 @@ func (s scen) coq() string {
 	if s.hasConn {
 		conn = fmt.Sprintf("(Some (%d, %s))", s.cstate, vh.B(s.cerr))
 	}
-	return fmt.Sprintf("{| sc_started := %s; sc_trusted := %s; sc_pstate := %d; sc_conn := %s; sc_counter := %s; sc_others := %d |}",
-		vh.B(s.started), vh.B(s.trusted), s.pstate, conn, vh.B(s.counter), s.others)
+	return fmt.Sprintf("{| sc_started := %s; sc_trusted := %s; sc_pstate := %d; sc_conn := %s; sc_counter := %s; sc_others := %d; sc_fresh := %s |}",
+		vh.B(s.started), vh.B(s.trusted), s.pstate, conn, vh.B(s.counter), s.others, vh.B(s.fresh))
 }
 
 var opKinds = []string{"KDetail", "KRegister", "KUnregister", "KDisconnect", "KCancel", "KService"}
@@ -49,14 +50,16 @@ func runScenario(s scen, canon, spelling, op string) []string {
 	l := &vh.Log{}
 	h, _ := newHub(l)
 	h.VerifSetStarted(s.started)
-	svc := h.ServiceForSKI(canon)
-	svc.SetTrusted(s.trusted)
-	svc.ConnectionStateDetail().SetState(api.ConnectionState(s.pstate))
+	if !s.fresh {
+		svc := h.ServiceForSKI(canon)
+		svc.SetTrusted(s.trusted)
+		svc.ConnectionStateDetail().SetState(api.ConnectionState(s.pstate))
+	}
 	for i := s.others; i >= 1; i-- {
 		o := h.ServiceForSKI(string(rune('0' + i)))
 		o.SetTrusted(true)
 	}
-	if s.hasConn {
+	if s.hasConn && !s.fresh {
 		var err error
 		if s.cerr {
 			err = errors.New("boom")
@@ -64,7 +67,7 @@ func runScenario(s scen, canon, spelling, op string) []string {
 		c := &vh.FakeConn{Id: 1, Ski: canon, State: model.ShipMessageExchangeState(s.cstate), Err: err, W: &vh.FakeWriter{Id: 1}, L: l}
 		h.VerifRegisterConnection(c)
 	}
-	if s.counter {
+	if s.counter && !s.fresh {
 		h.VerifSetAttemptCounter(canon, 0)
 	}
 	l.Take()
@@ -86,10 +89,10 @@ func runScenario(s scen, canon, spelling, op string) []string {
 		l.Add(fmt.Sprintf("OSvc %s %s", vh.HxS(sv.SKI()), vh.B(sv.Trusted())))
 	}
 	obs := l.Take()
+	nrec, npaired := h.VerifServiceCounts() // before the snapshot's own lookup, which may create the record
 	sv := h.ServiceForSKI(canon)
 	_, hasCounter := h.VerifAttemptCounter(canon)
 	_, hasConn := h.VerifRegistry()[canon]
-	nrec, npaired := h.VerifServiceCounts()
 	obs = append(obs, fmt.Sprintf("OSnap %s %d %s %s %d %d", vh.B(sv.Trusted()), sv.ConnectionStateDetail().State(), vh.B(hasCounter), vh.B(hasConn), nrec, npaired))
 	return obs
 }
@@ -187,6 +190,7 @@ func randScen(r *vh.Rng) scen {
 		s.cstate = r.Intn(40)
 		s.cerr = r.Chance(30)
 	}
+	s.fresh = r.Chance(20)
 	return s
 }
 
